@@ -38,6 +38,8 @@ type Program struct {
 	useCHA bool
 	Tags   string
 	cache  map[string]any // per-program memo of expensive analyses
+	// NormLog: what the normalising inliner did before the rules ran
+	NormLog []string
 }
 
 // BrokenError marks a failure of the machinery itself (unresolved anchor,
@@ -60,6 +62,8 @@ type LoadOptions struct {
 	Tests   bool
 	GOARCH  string
 	Overlay map[string][]byte
+	// NoInline switches the normalising inliner off (anchor generation)
+	NoInline bool
 }
 
 func Load(opt LoadOptions) *Program {
@@ -86,11 +90,32 @@ func Load(opt LoadOptions) *Program {
 	if opt.Tags != "" {
 		cfg.BuildFlags = []string{"-tags=" + opt.Tags}
 	}
+	var normLog []string
+	if !opt.NoInline {
+		if found, testIdents := hasNewFunctions(opt.Repo, opt.Overlay); found {
+			lcfg := *cfg
+			lcfg.Mode = packages.LoadSyntax
+			lcfg.Tests = false
+			var ov map[string][]byte
+			ov, normLog = Normalise(opt, testIdents, func(overlay map[string][]byte) []*packages.Package {
+				c := lcfg
+				c.Overlay = overlay
+				pkgs, err := packages.Load(&c, "./...")
+				if err != nil {
+					return nil
+				}
+				return pkgs
+			})
+			if ov != nil {
+				cfg.Overlay = ov
+			}
+		}
+	}
 	initial, err := packages.Load(cfg, "./...")
 	if err != nil {
 		broken("go/packages: %v", err)
 	}
-	p := &Program{Repo: opt.Repo, ByPath: map[string]*packages.Package{}, Tags: opt.Tags, cache: map[string]any{}}
+	p := &Program{Repo: opt.Repo, ByPath: map[string]*packages.Package{}, Tags: opt.Tags, cache: map[string]any{}, NormLog: normLog}
 	var errs []string
 	packages.Visit(initial, nil, func(pkg *packages.Package) {
 		p.All = append(p.All, pkg)
